@@ -1042,6 +1042,8 @@ def main():
               assumptions=["the model's executable definitions agree with the implementation on every input (sampled by the correspondence part of this run)",
                            "IEEE-754 / Rust std / serde_json behave as modelled (see trusted_base)"])
     jl.write_evidence(pid, ev)
+    for rs_ in sorted(set(proof.get("lost_translation", [])))[:6]:
+        print("NOTE: `%s` is no longer within what the function translator reads (%s): for it the model is tied to the code by the correspondence streams of this run only" % (rs_, str(proof.get("tie_functions", {}).get(rs_, ""))[:140]))
     for f in (ex.foreign[:5] if ex else []):
         print("NOTE: disagreement outside this property's domain (owner %s): %s | impl %s | model %s" % (f["owner"], f["case"][:160], f["impl"][:80], f["model"][:80]))
     print("%s tier=%s seed=%d: %d theorems (%d discharged), %d evaluations, %d distinct non-trivial, %d violations, %.1fs" %
